@@ -145,7 +145,14 @@ func indexKey(name string, v interface{}) []byte {
 		if a == "" {
 			return nil
 		}
-		return []byte(a)
+		// '~' stands for the byte 0xff (binary index keys)
+		k := []byte(a)
+		for i := range k {
+			if k[i] == '~' {
+				k[i] = 0xff
+			}
+		}
+		return k
 	default:
 		return []byte(strconv.Itoa(n % 3))
 	}
@@ -798,7 +805,7 @@ func genWorkload() *rapid.Generator[Workload] {
 		w := Workload{Prefix: rapid.SampledFrom([]string{"", "pfx"}).Draw(t, "prefix"), Kind: rapid.SampledFrom([]string{"typed", "map", "binary"}).Draw(t, "kind")}
 		w.Indexes = rapid.SampledFrom([][]string{{"ia"}, {"ia", "in"}}).Draw(t, "indexes")
 		ids := []string{"1", "2", "px", "k", "f1"} // some ids start with characters of the prefix "pfx."
-		as := []string{"a", "b", "ab", ""}
+		as := []string{"a", "b", "ab", "", "a~", "~"}
 		ns := rapid.IntRange(0, 3).Draw(t, "nseeds")
 		seen := map[string]bool{}
 		for i := 0; i < ns; i++ {
@@ -1003,6 +1010,47 @@ func TestRandomTimeKills(t *testing.T) {
 }
 
 var _ = filepath.Join
+
+// TestBulkRebuild: several hundred stored values, reopen, RebuildIndexes, every index
+// query (unlimited, filtered/windowed, both directions) against the stored values.
+func TestBulkRebuild(t *testing.T) {
+	rapid.Check(t, func(rt *rapid.T) {
+		w := Workload{Prefix: rapid.SampledFrom([]string{"", "pfx"}).Draw(rt, "prefix"), Kind: rapid.SampledFrom([]string{"typed", "map"}).Draw(rt, "kind"), Indexes: []string{"ia", "in"}}
+		n := rapid.IntRange(257, 400).Draw(rt, "values")
+		dir := bdb.TempDir("c12bulk")
+		defer os.RemoveAll(dir)
+		e, err := openEnv(dir, w)
+		if err != nil {
+			rt.Fatalf("VERIF-INCONCLUSIVE: %v", err)
+		}
+		obs := state{vals: map[string]string{}}
+		for i := 0; i < n; i++ {
+			op := Op{K: "create", ID: fmt.Sprintf("v%03d", i), A: rapid.SampledFrom([]string{"a", "b", "ab", "", "a~", "~"}).Draw(rt, "a"), N: rapid.IntRange(0, 9).Draw(rt, "n")}
+			if err := e.apply(w, op); err != nil {
+				_ = e.db.Close()
+				rt.Fatalf("create %s: %v", op.ID, err)
+			}
+			obs.vals[op.ID] = op.A + "|" + strconv.Itoa(op.N)
+		}
+		e.qs.Flush()
+		_ = e.db.Close()
+		e, err = openEnv(dir, w)
+		if err != nil {
+			rt.Fatalf("database cannot be reopened: %v", err)
+		}
+		defer e.db.Close()
+		if m := checkIndexes(e, w, obs); m != "" {
+			rt.Fatalf("%d values, after reopening: %s", n, m)
+		}
+		if err := e.qs.RebuildIndexes(); err != nil {
+			rt.Fatalf("RebuildIndexes failed: %v", err)
+		}
+		if m := checkIndexes(e, w, obs); m != "" {
+			rt.Fatalf("%d values, after RebuildIndexes: %s", n, m)
+		}
+		ev.Case(true, evid.Hash("bulk", w.Prefix, w.Kind, n), "bulk-rebuild")
+	})
+}
 
 // ---- regression tier ------------------------------------------------------------------
 
